@@ -23,7 +23,7 @@ RULE = ("layouts of 1-16 keep services with 0-3 mounts each (random stream), a '
 ASSUMPTIONS = [
     "mounts of one device agree on storage classes and replication (a device has one configuration); the generator enforces it",
     "executing a trash request for any mount of a device removes that device's replica (conservative physical model)",
-    "a storage class exists iff some mount offers it or it is 'default' (desired replication for a class no mount offers is ignored by balanceBlock; recorded as an observation)",
+    "desired replication for a class that no mount offers counts like any other (the block is then under-replicated for that class and is referenced); balanceBlock ignores such classes: known finding F05a",
     "mount identity is pointer identity in Go; the model uses one slot per (service index, mount index)",
 ]
 TRUSTED = ["executable MD5 in Lean (ArvVerif/Base/MD5.lean) for rendezvous ranks and rendezvousLess, compared with Go crypto/md5 through every case",
@@ -258,6 +258,7 @@ def oracle(case, impl):
         pa = phys_repl(lay, cls, after)
         if pa < min(d, pb):
             return "unsafe: executing the trash list leaves class %s with replication %d < min(%d, %d)" % (cls, pa, d, pb)
+    unoffered = sorted(c for c, d in lay["desired"].items() if d > 0 and c not in kc)
     # --- pulls
     for si, ent in out["P"]:
         if set(ent) != {"locator", "servers", "mount_uuid"}:
@@ -277,18 +278,59 @@ def oracle(case, impl):
         if not src or not any(s == src[0] for (s, _m) in have):
             return "pull: pull source does not hold the block"
     # --- lost
-    referenced = any(d > 0 and c in kc for c, d in lay["desired"].items())
+    referenced = any(d > 0 for d in lay["desired"].values())
+    referenced_offered = any(d > 0 and c in kc for c, d in lay["desired"].items())
     if out["lost"] == "1" and (lay["reps"] or not referenced):
         return "lost: block reported lost although it has a replica or is not referenced"
-    if out["lost"] != "1" and not lay["reps"] and referenced:
+    if out["lost"] != "1" and not lay["reps"] and referenced_offered:
         return "lost: referenced block with no replica anywhere is not reported as lost"
+    # --- classes that no mount offers (evaluated last, so that they never hide another failure): the
+    # block is wanted in such a class with replication d > 0 and has 0 there, i.e. it is under-replicated
+    # for that class, and it is referenced
+    if unoffered and trashed:
+        return "underrep: trash issued while class %s, which no mount offers, is under-replicated (0 < %d)" % (
+            unoffered[0], lay["desired"][unoffered[0]])
+    if out["lost"] != "1" and not lay["reps"] and referenced:
+        return "lost: block referenced only in classes no mount offers (%s) has no replica anywhere and is not reported as lost" % ",".join(unoffered)
     return None
 
 
 # ----------------------------------------------------------------------------- findings
 # F1, F2 and F12 were repaired by fix: commits in /repo (harness/props/C05.findings.json, status
-# "fixed"); their witnesses are in corpus/C05 and must pass. There is no finding_of: any failure of
-# any clause on any layout is a VIOLATION.
+# "fixed"); their witnesses are in corpus/C05 and must pass, any recurrence is a VIOLATION.
+# F05a (known): balanceBlock only looks at bal.classes, so desired replication for a class that no
+# mount offers is ignored: a block referenced only in such classes is treated as garbage (all old
+# replicas trashed) and is never reported lost.
+
+def _trash_lost_agree(impl, model):
+    """the implementation's trash list and lost flag are among the outcomes the model allows"""
+    si, sm = split_result(impl), split_result(model)
+    if si is None or sm is None or len(si[1]) != 1 or si[0] != sm[0]:
+        return False
+    try:
+        key = lambda o: (o["lost"], tuple(sorted((i, json.dumps(e, sort_keys=True)) for i, e in o["T"])))
+        return key(parse_outcome(si[1][0])) in {key(parse_outcome(o)) for o in sm[1]}
+    except Exception:
+        return False
+
+
+def finding_of(case, impl, why, model=None):
+    """F05a: the failing clause names a class that no mount offers (the oracle evaluates these
+    clauses last, after every clause about offered classes passed), and the implementation's trash
+    list and lost flag are among those the model of the unchanged code allows (the model is proved to
+    have exactly this defect: C05_unoffered_class_full_fails, C05_lost_full_fails). Nothing else
+    matches."""
+    if not why or "no mount offers" not in why:
+        return None
+    lay = parse_case(case)
+    if lay is None:
+        return None
+    kc = known_classes(lay)
+    if not any(d > 0 and c not in kc for c, d in lay["desired"].items()):
+        return None
+    if model is not None and not _trash_lost_agree(impl, model):
+        return None
+    return "F05a"
 
 
 # ----------------------------------------------------------------------------- generator
@@ -406,8 +448,10 @@ def _random_case(rng, maxsvc):
     for n in names:
         if n == "default" or rng.random() < 0.7:
             desired.append((n, rng.choice([0, 1, 1, 2, 2, 2, 3, 3, 4])))
-    if rng.random() < 0.03:
+    if rng.random() < 0.04:
         desired.append(("nosuchclass", rng.randint(1, 3)))
+        if rng.random() < 0.5:      # referenced only in the class that no mount offers
+            desired = [d for d in desired if d[0] == "nosuchclass"]
     if rng.random() < 0.05:
         desired = [d for d in desired if d[0] != "default"]
     rng.shuffle(desired)
